@@ -17,7 +17,7 @@ class TypedefGen:
         self.tags = []                    # tag records: {id, kw, name, line}
         self.expect = {}                  # (kind, name, line) -> expected printed type
         self.model = []                   # model records
-        self.nv = 0
+        self.nv = self.nf = self.ng = 0
         self.stats = {"typedef": 0, "alias": 0, "ptr": 0, "arr": 0, "fn": 0, "qual": 0, "tagref": 0, "shadow_typedef": 0, "shadow_tag": 0,
                       "forward_tag": 0, "maxchain": 0, "vars": 0}
 
@@ -135,8 +135,29 @@ class TypedefGen:
             return "%s[%d]" % (name, r.choice([1, 2, 3])), ("a", t)
         if k < 0.9 and not self.is_arr_or_fn(t):
             self.stats["fn"] += 1
-            return "(*%s)(int)" % name, ("p", ("f", t, [("b", 0 if False else 0 + 0)])) if False else ("(*%s)(int)" % name, ("p", ("f", t, [("b", 0)])))[1]
+            return self.fnptr(name, t)
         return name, t
+
+    def fnptr(self, name, t):
+        """pointer to a function returning t; the parameters are basic types and visible typedef names (of object, non-array types)"""
+        r = self.r
+        ptexts, ptys = [], []
+        for _ in range(r.choice([1, 1, 2, 3])):
+            # (not the name being declared: inside its own declarator it still denotes the outer declaration, which the
+            #  order-insensitive scope search cannot tell — C10's late-declaration finding)
+            tds = [rec for rec in self.visible_typedefs() if not self.is_arr_or_fn(rec["ty"]) and not self.is_void(rec["ty"]) and rec["name"] != name]
+            if tds and r.random() < 0.5:
+                rec = r.choice(tds)
+                for f in self.refs:
+                    f.add("o:" + rec["name"])
+                ptexts.append(rec["name"])
+                ptys.append(("n", rec))
+                self.stats["param_typedef"] = self.stats.get("param_typedef", 0) + 1
+            else:
+                i = r.randrange(len(BASIC))
+                ptexts.append(BASIC[i][0])
+                ptys.append(("b", i))
+        return "(*%s)(%s)" % (name, ", ".join(ptexts)), ("p", ("f", t, ptys))
 
     def qualified_base(self, spec, t):
         r = self.r
@@ -157,9 +178,6 @@ class TypedefGen:
             return
         spec, t = self.qualified_base(spec, t)
         d, ty = self.derive(spec, t, name)
-        if d.startswith("(*"):
-            d = "(*%s)(char)" % name
-            ty = ("p", ("f", t, [("b", 1)]))
         if self.lookup("o:" + name) is not None:
             self.stats["shadow_typedef"] += 1
         line = self.emit(indent + "typedef %s %s;" % (spec, d))
@@ -196,21 +214,92 @@ class TypedefGen:
         self.tags.append(rec)
         self.frames[-1]["t:" + name] = rec
 
-    def variable(self, indent):
+    def object_declaration(self, name):
+        """'spec declarator;' of an object of complete type, and its type"""
         spec, t = self.base_type()
         spec, t = self.qualified_base(spec, t)
-        self.nv += 1
-        name = "v%d" % self.nv
         d, ty = self.derive(spec, t, name)
-        if d.startswith("(*"):
-            d = "(*%s)(char)" % name
-            ty = ("p", ("f", t, [("b", 1)]))
         if self.incomplete(ty) or self.is_fn(ty):
             d, ty = "*" + name, ("p", t)
-        line = self.emit(indent + "%s %s;" % (spec, d))
+        return "%s %s;" % (spec, d), ty
+
+    def variable(self, indent):
+        self.nv += 1
+        name = "v%d" % self.nv
+        text, ty = self.object_declaration(name)
+        line = self.emit(indent + text)
         self.model.append("V %s@%d %s" % (name, line, self.mty(ty)))
         self.expect[("Variable", name, line)] = self.printed(ty)
         self.stats["vars"] += 1
+
+    # ---- structures and unions with members: plain, bit-field, function-pointer members; anonymous structures/unions
+    # (6.7.2.1p13), named members of untagged and of tagged types defined in place, nested in each other
+    def new_tag(self, kw, name, line, register):
+        rec = {"id": len(self.tags), "kw": kw, "name": name, "line": line, "complete": True}
+        self.tags.append(rec)
+        if register:
+            self.frames[-1]["t:" + name] = rec
+        return rec
+
+    def members(self, line, depth):
+        r = self.r
+        out = []
+        for _ in range(r.choice([1, 2, 2, 3])):
+            k = r.random()
+            if depth < 3 and k < 0.45:
+                kw = r.choice(["struct", "struct", "union"])
+                inner = self.members(line, depth + 1)
+                form = r.random()
+                if form < 0.45:
+                    out.append("%s { %s };" % (kw, inner))
+                    self.stats["anonymous_member"] = self.stats.get("anonymous_member", 0) + 1
+                    continue
+                self.nf += 1
+                name = "f%d" % self.nf
+                if form < 0.8:
+                    rec = self.new_tag(kw, "<untagged>", line, False)
+                    out.append("%s { %s } %s;" % (kw, inner, name))
+                    self.stats["untagged_member"] = self.stats.get("untagged_member", 0) + 1
+                else:
+                    self.ng += 1
+                    rec = self.new_tag(kw, "N%d" % self.ng, line, True)     # no structure scope in C: the tag is visible after the definition
+                    out.append("%s %s { %s } %s;" % (kw, rec["name"], inner, name))
+                    self.stats["tagged_member"] = self.stats.get("tagged_member", 0) + 1
+                ty = ("g", rec)
+            elif k < 0.55:
+                self.nf += 1
+                name = "f%d" % self.nf
+                i = r.choice([0, 2])
+                out.append("%s %s : %d;" % (BASIC[i][0], name, r.choice([1, 3, 7])))
+                ty = ("b", i)
+                self.stats["bitfield"] = self.stats.get("bitfield", 0) + 1
+            else:
+                self.nf += 1
+                name = "f%d" % self.nf
+                text, ty = self.object_declaration(name)
+                out.append(text)
+            self.model.append("V %s@%d %s" % (name, line, self.mty(ty)))
+            self.expect[("Field", name, line)] = self.printed(ty)
+            self.stats["fields"] = self.stats.get("fields", 0) + 1
+        return " ".join(out)
+
+    def aggregate(self, indent):
+        r = self.r
+        line = len(self.lines) + 1
+        kw = r.choice(["struct", "struct", "union"])
+        body = self.members(line, 1)
+        if r.random() < 0.6:
+            self.ng += 1
+            self.new_tag(kw, "G%d" % self.ng, line, True)
+            self.emit(indent + "%s G%d { %s };" % (kw, self.ng, body))
+        else:
+            self.nv += 1
+            name = "v%d" % self.nv
+            rec = self.new_tag(kw, "<untagged>", line, False)
+            self.emit(indent + "%s { %s } %s;" % (kw, body, name))
+            self.model.append("V %s@%d %s" % (name, line, self.mty(("g", rec))))
+            self.expect[("Variable", name, line)] = self.printed(("g", rec))
+        self.stats["aggregates"] = self.stats.get("aggregates", 0) + 1
 
     def is_fn(self, t):
         while True:
@@ -289,6 +378,8 @@ class TypedefGen:
                 self.typedef(indent + " ")
             elif k < 0.5:
                 self.tagdecl(indent + " ")
+            elif k < 0.6:
+                self.aggregate(indent + " ")
             elif k < 0.85:
                 self.variable(indent + " ")
             elif depth < 3:
@@ -307,6 +398,8 @@ class TypedefGen:
                 self.typedef("")
             elif k < 0.55:
                 self.tagdecl("")
+            elif k < 0.67:
+                self.aggregate("")
             elif k < 0.8:
                 self.variable("")
             else:
